@@ -883,13 +883,16 @@ fn assignable_index<'t>(ctx: Context<'t>, indexed: Assignable) -> ParseResult<'t
     let ctx = expect!(ctx, T::LeftBracket, "Expected '[' when indexing");
     let (mut ctx, skip_newlines) = ctx.push_skip_newlines(true);
 
-    let expr =
-        if let (_ctx, expr @ Expression { kind: ExpressionKind::Int(_), .. }) = expression(ctx)? {
-            ctx = _ctx; // assign to outer
-            expr
-        } else {
-            raise_syntax_error!(ctx, "Expected 'int' when parsing tuple indexing");
-        };
+    let (_ctx, mut expr) = expression(ctx)?;
+    // `t[(0)]` is `t[0]` - parentheses around the literal say nothing.
+    while let ExpressionKind::Parenthesis(inner) = expr.kind {
+        expr = *inner;
+    }
+    if matches!(expr.kind, ExpressionKind::Int(_)) {
+        ctx = _ctx; // assign to outer
+    } else {
+        raise_syntax_error!(ctx, "Expected 'int' when parsing tuple indexing");
+    }
     let ctx = ctx.pop_skip_newlines(skip_newlines);
     let ctx = expect!(ctx, T::RightBracket, "Expected ']' after index");
 
